@@ -76,7 +76,20 @@ std::map<void *, int> owner;        // modelled mutex -> owner id (absent = free
 int current = -1;
 const unsigned char *sched_bytes = nullptr;
 size_t sched_len = 0, sched_pos = 0;
-int strategy = 0;                   // 0 random, 1 PCT
+int strategy = 0;                   // 0 random, 1 PCT, 2 enumeration (explicit choice list, bounded pre-emptions)
+// enumeration: every point with k >= 2 alternatives consumes one entry of the prefix (default 0 = keep the
+// running thread / the first candidate) and records (choice, k); the driver backtracks over the record
+std::vector<unsigned char> enum_prefix, enum_c, enum_k;
+size_t enum_pos = 0;
+int enum_bound = 2;
+int enum_choice(int k) {
+  unsigned char c = enum_pos < enum_prefix.size() ? enum_prefix[enum_pos] : 0;
+  if (c >= k) c = 0;
+  enum_pos++;
+  enum_c.push_back(c);
+  enum_k.push_back((unsigned char)k);
+  return c;
+}
 std::vector<size_t> pct_change;     // step numbers at which the running thread's priority drops
 size_t step_no = 0;
 vsched_stats stats;
@@ -121,6 +134,16 @@ int choose(int me) {
   step_no++;
   stats.points++;
   bool me_enabled = me >= 0 && enabled(thr[me]);
+  if (strategy == 2) {
+    std::vector<int> order;
+    if (me_enabled) order.push_back(me);
+    for (int id : en) if (!me_enabled || id != me) order.push_back(id);
+    if (order.size() == 1) return order[0];
+    if (me_enabled && stats.preemptions >= enum_bound) return me;   // budget of pre-emptions used up
+    int c = enum_choice((int)order.size());
+    if (me_enabled && c > 0) stats.preemptions++;
+    return order[c];
+  }
   if (strategy == 1) {
     for (size_t c : pct_change) if (c == step_no && me >= 0) thr[me]->prio = -(int)step_no;  // drop below everyone
     int best = en[0];
@@ -223,6 +246,24 @@ void vsched_begin(const unsigned char *bytes, size_t n) {
   real_unlock(&G);
 }
 
+void vsched_begin_enum(const unsigned char *prefix, size_t n, int bound) {
+  vsched_begin(nullptr, 0);
+  real_lock(&G);
+  strategy = 2;
+  enum_prefix.assign(prefix, prefix + n);
+  enum_c.clear();
+  enum_k.clear();
+  enum_pos = 0;
+  enum_bound = bound;
+  real_unlock(&G);
+}
+
+size_t vsched_enum_trace(unsigned char *c, unsigned char *k, size_t cap) {
+  size_t n = enum_c.size() < cap ? enum_c.size() : cap;
+  for (size_t i = 0; i < n; i++) { c[i] = enum_c[i]; k[i] = enum_k[i]; }
+  return enum_c.size();
+}
+
 vsched_stats vsched_end(void) {
   real_lock(&G);
   active = false;
@@ -322,7 +363,7 @@ int pthread_cond_signal(pthread_cond_t *c) {
   int me = my_id;
   std::vector<int> w;
   for (Thr *t : thr) if (t->st == BLK_COND && t->waiting_on == c) w.push_back(t->id);
-  if (!w.empty()) { int pick = w[next_byte() % w.size()]; thr[pick]->st = RUNNABLE; }
+  if (!w.empty()) { int pick = w[strategy == 2 ? (w.size() > 1 ? enum_choice((int)w.size()) : 0) : next_byte() % w.size()]; thr[pick]->st = RUNNABLE; }
   else stats.notify_without_waiter++;
   sched_point(me);
   real_unlock(&G);
